@@ -195,14 +195,13 @@ def dedupSorted : List Rat → List Rat
   | [a] => [a]
   | a :: b :: rest => if a = b then dedupSorted (b :: rest) else a :: dedupSorted (b :: rest)
 
-/-- knots (mean performed onset, score onset), sorted by performed onset; `none` when an onset
-    carries only grace notes (mean of nothing = NaN in the code) -/
-def timeMapKnots (ps : List MatchedPair) : Option (List (Rat × Rat)) := do
+/-- knots (mean performed onset, score onset), sorted by performed onset; score onsets at which only
+    grace notes are matched do not take part -/
+def timeMapKnots (ps : List MatchedPair) : List (Rat × Rat) :=
   let us := dedupSorted (sortBy (fun a b => decide (a ≤ b)) (ps.map (·.sOnset)))
-  let ks ← us.mapM fun u => do
-    let m ← mean ((ps.filter fun p => p.sOnset = u && p.hasDur).map (·.pOnset))
-    pure (m, u)
-  pure (sortBy (fun a b => decide (a.1 ≤ b.1)) ks)
+  let ks := us.filterMap fun u =>
+    (mean ((ps.filter fun p => p.sOnset = u && p.hasDur).map (·.pOnset))).map fun m => (m, u)
+  sortBy (fun a b => decide (a.1 ≤ b.1)) ks
 
 /-- sort key of a note line: `(onset_beats, doc_order)` or `(ptime_to_stime(note_on), midi_pitch)` -/
 structure LineKey where
@@ -299,6 +298,9 @@ structure Frac where
 deriving Repr, DecidableEq, Inhabited
 
 def Frac.val (f : Frac) : Rat := (f.num : Rat) / ((f.den : Rat) * (f.tup : Rat))
+
+/-- the field the exporter writes for a non-negative fraction: reduced numerator/denominator, no tuple divisor -/
+def Frac.ofRat (r : Rat) : Frac := { num := r.num.toNat, den := r.den, tup := 1 }
 
 /-- an snote as the importer sees it -/
 structure SNote where
@@ -403,6 +405,20 @@ def barTime (ts : List TSLine) (maxTime : Rat) (n : SNote) : Rat :=
     - ((n.beat - 1 : Int) : Rat) * 4 / (denAtBeats ts maxTime n.onsetB : Rat)
     - 4 * n.offset.val
 
+/-- fix C08-11: a signature is not added when the NEXT one (in time order) already starts at or before
+    the first note (position ≤ 0): only the one in force at the start is kept -/
+def keepInForce {α : Type} : List (Int × α) → List (Int × α)
+  | [] => []
+  | [a] => [a]
+  | a :: b :: rest => if b.1 ≤ 0 then keepInForce (b :: rest) else a :: keepInForce (b :: rest)
+
+/-- position of a note in quarters from the loaded origin: bar start + whole beats + offset − shift -/
+def notePos (barQ : Rat) (beat : Int) (den : Nat) (off shiftQ : Rat) : Rat :=
+  barQ + ((beat - 1 : Int) : Rat) * 4 / (den : Rat) + 4 * off - shiftQ
+
+/-- duration in divs of one duration component: `int(divs * 4 * num / (den * tuple_div))` -/
+def durDivs (divs : Nat) (f : Frac) : Int := truncRat ((divs : Rat) * 4 * f.val)
+
 /-- `numpy.isclose(a, b, atol)` with the default `rtol = 1e-5` -/
 def isClose (a b atol : Rat) : Bool := decide (absR (a - b) ≤ atol + absR b / 100000)
 
@@ -422,14 +438,13 @@ def reconstruct (raw : List SNote) (ts : List TSLine) (ks : List (Rat × Int)) :
     pure (b, barTime ts maxTime n)
   let notesFb ← ns.mapM fun (i, n) => do
     let bt ← lookup n.measure bars
-    let pos := bt + ((n.beat - 1 : Int) : Rat) * 4 / (denAtBeats ts maxTime n.onsetB : Rat) + 4 * n.offset.val - shiftQ
+    let pos := notePos bt n.beat (denAtBeats ts maxTime n.onsetB) n.offset.val shiftQ
     let od : Rat := (roundHalfEven ((divs : Rat) * pos) : Rat)
     -- onset_in_divs from OnsetInBeats (relative to the smallest onset, plus the padding)
     let oid := (divs : Rat) * (beatsToQuarters ts n.onsetB - beatsToQuarters ts minB) + (if t > 0 then t * divs else 0)
     let fb := !(isClose od oid ((divs : Rat) / 100))
     let onset := if fb then oid else od
-    let durs := if n.comps.isEmpty then [truncRat ((divs : Rat) * 4 * n.dur.val)]
-                else n.comps.map fun c => truncRat (4 * (divs : Rat) * c.val)
+    let durs := if n.comps.isEmpty then [durDivs divs n.dur] else n.comps.map (durDivs divs)
     pure ((i, onset, durs), fb)
   let clip (x : Int) : Int := if x < 0 then 0 else x
   let barlines := bars.map fun (b, q) => (b, clip (roundHalfEven ((divs : Rat) * (q - shiftQ))))
@@ -439,10 +454,11 @@ def reconstruct (raw : List SNote) (ts : List TSLine) (ks : List (Rat × Int)) :
   let tq := tsQuarters ts ((ts.head?.map fun s => s.timeB * 4 / (s.den : Rat)).getD 0)
   let lastTs := ((tq.filter fun p => decide (p.2 ≤ lastBar.2)).getLast?.map (·.1)).getD (ts.head?.getD default)
   let lastBarEnd := lastBl.2 + roundHalfEven ((divs : Rat) * (lastTs.num : Rat) * 4 / (lastTs.den : Rat))
+  -- position of a signature line, possibly before the first note (negative)
   let sigPos (bar : Int) (timeB : Rat) : Int :=
     match lookup bar bars with
-    | some q => clip (roundHalfEven ((divs : Rat) * (q - shiftQ)))
-    | none => clip (roundHalfEven ((divs : Rat) * (beatsToQuarters ts timeB - shiftQ)))
+    | some q => roundHalfEven ((divs : Rat) * (q - shiftQ))
+    | none => roundHalfEven ((divs : Rat) * (beatsToQuarters ts timeB - shiftQ))
   pure { divs := divs
          shiftQ := shiftQ
          restEnd := if t > 0 then some (t * divs) else none
@@ -451,7 +467,8 @@ def reconstruct (raw : List SNote) (ts : List TSLine) (ks : List (Rat × Int)) :
          fallback := notesFb.map (·.2)
          barlines := barlines
          lastBarEnd := lastBarEnd
-         tsPos := ts.map fun s => (sigPos s.measure s.timeB, s.num, s.den)
-         ksPos := ks.map fun k => sigPos k.2 k.1 }
+         tsPos := (keepInForce (ts.map fun s => (sigPos s.measure s.timeB, (s.num, s.den)))).map
+                    fun (p, n, d) => (clip p, n, d)
+         ksPos := (keepInForce (ks.map fun k => (sigPos k.2 k.1, ()))).map fun (p, _) => clip p }
 
 end Model.MatchTime
